@@ -475,6 +475,24 @@ def fail_memo():
     }
 
 
+def fail_kinds():
+    """ways of failing and what they leave behind: a rule that writes $1 directly and then fails (206 on top of its own
+    status; the half-made file stays and must not be taken for a source by the next run), one that fails after creating $3,
+    one that fails after writing stdout; all repaired in version 2"""
+    return {
+        'name': 'fail_kinds',
+        'plain': ['s', 'xd', 'xf', 'xs', 'top'],
+        'rules': {'xd.do': [{'xd': [ifchange('s'), out('direct', 's'), exit_(3)]}, {'xd': [ifchange('s'), out('stdout', 's')]}],
+                  'xf.do': [{'xf': [ifchange('s'), out('file', 's'), exit_(4)]}, {'xf': [ifchange('s'), out('file', 's')]}],
+                  'xs.do': [{'xs': [ifchange('s'), out('stdout', 's'), exit_(5)]}, {'xs': [ifchange('s'), out('stdout', 's')]}],
+                  'top.do': [{'top': [ifchange('xd', 'xf', 'xs'), out('stdout', 'xd', 'xf', 'xs')]}]},
+        'init': ['s', 'xd.do', 'xf.do', 'xs.do', 'top.do'],
+        'cmds': [('ifchange', ['top'], False), ('ifchange', ['xd', 'xf', 'xs'], True)],
+        'user': [], 'rm': [], 'doedits': ['xd.do', 'xf.do'],
+        'bounds': (4, 3),
+    }
+
+
 def nodir_prog():
     """a target whose directory does not exist, built by the top-level default.do: output on stdout cannot be installed
     (internal build-job error 209), output through $3 makes the script itself fail; the failure must be remembered"""
@@ -710,7 +728,7 @@ def crash_family(window=False, stamp_window=False):
     return out_
 
 
-FAMILY_DEEP = [symlink_prog, symlink_stamped, nodir_prog, always2, fail_diamond, override2, stamp_toggle, stamped_deep, ifcreate_deep, do_recreate, subdirs, fan_shared, fail_memo]
+FAMILY_DEEP = [fail_kinds, symlink_prog, symlink_stamped, nodir_prog, always2, fail_diamond, override2, stamp_toggle, stamped_deep, ifcreate_deep, do_recreate, subdirs, fan_shared, fail_memo]
 
 
 def deep_programs():
